@@ -48,6 +48,20 @@ def scenarios(tier, seed):
                         d["fixed_cpds"] = [nodes[(k + 1) % 4], nodes[(k + 2) % 4]]
                         d["fixed_seed"] = k
                     out.append(d)
+                # soft evidence on one variable twice with different likelihoods, and MAP under it, on one engine
+                if engine != "ci" and (tier != "quick" or set(card.values()) == {2}):
+                    for seq in (["virtual", "virtual_alt", "query"], ["virtual_alt", "virtual", "map_virtual"], ["map_virtual", "map_virtual_alt", "virtual"],
+                                ["virtual_evidence", "virtual_alt", "map"]):
+                        k += 1
+                        d = dict(family=f"seq/{engine}", mode="seq", engine=engine, shape=sname, nodes=nodes, parents=parents, card=card, seq=seq,
+                                 states=C.STATE_STYLES[k % len(C.STATE_STYLES)], names="str", hashseed=k % nh, budget_s=40,
+                                 node_order=list(np.roll(nodes, k % len(nodes))), edge_rev=bool(k % 2), cpd_rev=bool((k // 2) % 2))
+                        if len(nodes) == 4:
+                            d["fixed_cpds"] = [nodes[(k + 1) % 4], nodes[(k + 2) % 4]]
+                            d["fixed_seed"] = k
+                        if tier == "quick" and ((k + seed) % 2 or (len(nodes) == 4 and any(q.startswith("map_virtual") for q in seq))):
+                            continue
+                        out.append(d)
     # representation independence: one question under every relabelling / insertion order
     for sname in ["collider3", "diamond", "collchild"]:
         nodes, parents = C.SHAPES[sname]
@@ -122,12 +136,15 @@ def run_seq(desc, M):
     from pgmpy.factors.discrete import TabularCPD
     from pgmpy.inference import BeliefPropagation, CausalInference, VariableElimination
     nodes, card = desc["nodes"], desc["card"]
-    names = C.sym_names(desc) + [f"lam{i}" for i in range(card[nodes[-1]])]
+    alt = any("_alt" in q for q in desc["seq"])
+    names = C.sym_names(desc) + [f"lam{i}" for i in range(card[nodes[-1]])] + ([f"mu{i}" for i in range(card[nodes[-1]])] if alt else [])
     M.declare(names)
     positive = True
     tabs = C.make_tables(desc, M, positive=positive)
     virt = nodes[-1]
     lam = [M.sym(f"lam{i}", lo=Fraction(1, 10), hi=1) for i in range(card[virt])]
+    lam_main = lam
+    mu = [M.sym(f"mu{i}", lo=Fraction(1, 10), hi=1) for i in range(card[virt])] if alt else None
     jt = C.joint_table(desc, tabs)
     model, nm = C.build_bn(desc, M, tabs)
     before = snap_model(model)
@@ -137,6 +154,10 @@ def run_seq(desc, M):
     for step, qn in enumerate(desc["seq"]):
         tag = f"step {step} {qn}"
         ev = {}
+        lam = lam_main
+        if qn.endswith("_alt"):
+            lam = mu
+            qn = qn[:-4]
         if qn in ("query_evidence", "map_evidence") and evnode:
             ev = {evnode: card[evnode] - 1}
         if qn == "virtual_evidence" and len(nodes) > 2:
@@ -182,6 +203,19 @@ def run_seq(desc, M):
             ve_ = [TabularCPD(nm[virt], card[virt], [[M.impl(x)] for x in lam], **({"state_names": {nm[virt]: sn}} if sn else {}))]
             res = eng.query([nm[q0]], virtual_evidence=ve_, show_progress=False)
             answer_check(desc, M, nm, jt, res, [q0], {}, lam, virt, tag)
+        elif qn == "map_virtual":
+            if virt in (q0,):
+                continue
+            sn = C.state_names(desc.get("states", "default"), virt, card[virt])
+            ve_ = [TabularCPD(nm[virt], card[virt], [[M.impl(x)] for x in lam], **({"state_names": {nm[virt]: sn}} if sn else {}))]
+            res = eng.map_query([nm[q0]], virtual_evidence=ve_, show_progress=False)
+            if M.check(set(res.keys()) == {nm[q0]}, f"{tag}: keys"):
+                vi = nodes.index(virt)
+                J = {st: val * lam[st[vi]] for st, val in jt.items()}
+                star = {q0: C.expected_state_names(desc, q0).index(res[nm[q0]])}
+                best = C.marginal(desc, J, star)
+                for a in C.assignments(desc, [q0]):
+                    M.le(C.marginal(desc, J, a), best, f"{tag}: MAP under soft evidence is a maximiser after earlier questions")
         elif qn in ("map", "map_evidence"):
             qv = [q0] if not ev or q0 != evnode else [q1]
             res = eng.map_query([nm[v] for v in qv], evidence=evidence, show_progress=False)
